@@ -61,9 +61,36 @@ template <class F> static vj::value with_slice_reduced(const part_t& t, F&& f) {
     throw unsupported{};
 }
 
+// index-level target (op slice_index): the shape function and the index map the view is built from, evaluated on a source
+// shape without an array behind it, so that extents up to 2^31 are reachable.  "at" lists result indices to map.
+struct index_target { std::vector<long> shape; std::vector<std::vector<long>> at; };
+template <class T> static bool get_vec(const T& v, std::vector<long>& out) {
+    if constexpr (meta::is_maybe_v<T>) { if (!static_cast<bool>(v)) return false; return get_vec(*v, out); }
+    else { out = shape_vec(v); return true; }
+}
+template <class S> static vj::value index_level(const index_target& t, const S& slices) {
+    auto tiny = make_leaf<long>(std::vector<long>(t.shape.size(), 1), 0);
+    auto src = nm::unwrap(nm::shape<true>(tiny));          // the shape type a dynamic array hands to the slicer
+    for (size_t i = 0; i < t.shape.size(); i++) nm::at(src, i) = t.shape[i];
+    std::vector<long> dst, flat;
+    if (!get_vec(nm::index::apply_shape_slice(src, slices), dst)) return nothing_res();
+    for (const auto& k : t.at) {
+        std::vector<size_t> idx(k.begin(), k.end());
+        std::vector<long> srcidx;
+        if (!get_vec(nm::index::apply_slice(idx, src, slices), srcidx)) return nothing_res();
+        flat.insert(flat.end(), srcidx.begin(), srcidx.end());
+    }
+    vj::value r = vj::value::object(); r.set("ok", true).set("crash", "").set("shape", vj::value(dst)).set("elems", vj::value(flat)); return r;
+}
+template <class A, class S> static vj::value finish(const A& a, const S& slices) { return project(view::apply_slice(a, slices)); }
+template <class S> static vj::value finish(const index_target& t, const S& slices) { return index_level(t, slices); }
+
 template <class A, class... P> static vj::value leaf(const A& a, bool variadic, const P&... p) {
-    if (variadic) return project(view::slice(a, p...));
-    return project(view::apply_slice(a, nmtools_tuple<P...>{p...}));
+    if constexpr (std::is_same_v<A, index_target>) return index_level(a, nmtools_tuple<P...>{p...});
+    else {
+        if (variadic) return project(view::slice(a, p...));
+        return project(view::apply_slice(a, nmtools_tuple<P...>{p...}));
+    }
 }
 
 template <class A> static vj::value run_packed(const A& a, const std::vector<part_t>& ps, bool variadic, bool pair) {
@@ -92,21 +119,32 @@ template <class A> static vj::value run_dynamic(const A& a, const std::vector<pa
         else if (t.k == 'e') slices.push_back(slice_t{rhs_t{Ellipsis}});
         else { if (!(t.hs && t.he && t.hp)) throw unsupported{}; slices.push_back(slice_t{rhs_t{tri_t{(int)t.s, (int)t.e, (int)t.p}}}); }
     }
-    return project(view::apply_slice(a, slices));
+    return finish(a, slices);
 }
 // dynamic encoding without integers/ellipsis: list of array<int,3>
 template <class A> static vj::value run_dynamic_arr(const A& a, const std::vector<part_t>& ps) {
     using tri_t = nmtools_array<int, 3>;
     nmtools_list<tri_t> slices;
     for (const auto& t : ps) { if (t.k != 's' || !(t.hs && t.he && t.hp)) throw unsupported{}; slices.push_back(tri_t{(int)t.s, (int)t.e, (int)t.p}); }
-    return project(view::apply_slice(a, slices));
+    return finish(a, slices);
 }
 
 static vj::value handle(const vj::value& c) {
     auto shp = c["shapes"][0].as_vec<long>();
-    auto a = make_leaf<long>(shp, 0);
     auto ps = parse_parts(c["args"]["parts"]);
     std::string enc = c["args"]["enc"].as_str();
+    if (c["op"].as_str() == "slice_index") {
+        index_target t; t.shape = shp;
+        for (size_t q = 0; q < c["args"]["at"].size(); q++) t.at.push_back(c["args"]["at"][q].as_vec<long>());
+        try {
+            if (enc == "packed") return run_packed(t, ps, false, false);
+            if (enc == "packed2") return run_packed(t, ps, false, true);
+            if (enc == "dyn") return run_dynamic(t, ps);
+            if (enc == "dynarr") return run_dynamic_arr(t, ps);
+        } catch (unsupported&) { return crash_res("driver:unsupported encoding for this case"); }
+        return crash_res("driver:unsupported encoding for this case");
+    }
+    auto a = make_leaf<long>(shp, 0);
     try {
         if (enc == "packed") return run_packed(a, ps, false, false);
         if (enc == "packed2") return run_packed(a, ps, false, true);
